@@ -20,7 +20,7 @@ TECHNIQUE = ('exhaustive enumeration of zero specifications x structures x solve
              '(warm start on/off) on the real estimator; every covering answer (project, datavector, synthetic records) inspected at the declared cells')
 RULE = ('case = (zero specification, history of (measurement list) calls, solver, iterations, warm start); zero specifications: cells of a measured '
         'clique, a value of a sub-clique, a cell of an unmeasured pair, a key in non-domain attribute order, two keys, a whole slice; '
-        'histories: all sequences of length <= 2 (quick) / 3 (thorough) over 4 measurement lists; states = (estimator history) nodes, '
+        'histories: all sequences of length <= 2 (quick) / 3 (thorough) over 5 measurement lists (incl. the empty one); states = (estimator history) nodes, '
         'transitions = estimate calls. non-trivial = history length >= 1 with >= 1 measurement; distinct = digest of the case.')
 LEVEL_TEXT = ('Every combination of the zero-specification, structure, solver and iteration alphabets is executed, and every call history up to '
               'the depth bound on a long-lived estimator (warm start on and off) is replayed; after each call all answers that cover a declared '
@@ -44,6 +44,7 @@ LISTS = {
     'AB-BC': [('A', 'B'), ('B', 'C')],
     'AB-BC-CA': [('A', 'B'), ('B', 'C'), ('C', 'A')],
     'A-B': [('A',), ('B',)],
+    'empty': [],    # no measurements at all: the solvers leave through their early exits (L == 0 / loss == 0)
 }
 ITERS = [1, 50, 300]
 
